@@ -15,7 +15,7 @@ import scipy.stats as st
 mp.dps = 60
 SCALE = 110
 LEVELS = ["0.001", "0.01", "0.05", "0.1", "0.2", "0.25", "0.3", "0.5", "0.75", "0.8", "0.9", "0.95",
-          "0.975", "0.99", "0.995", "0.999", "0.9999"]
+          "0.975", "0.99", "0.995", "0.998", "0.999", "0.9995", "0.9999"]
 OUT = os.path.join(os.path.dirname(os.path.abspath(__file__)), "..", "spec", "tables")
 
 def limbs(n):
